@@ -199,7 +199,9 @@ func c18Paging(run *core.Run) {
 		core.Must(p.Produce(0))
 	}
 	sorted := append([]*wallet.KeyPair{}, owners...)
-	sort.Slice(sorted, func(i, j int) bool { return strings.Compare(string(sorted[i].Address.Bytes()), string(sorted[j].Address.Bytes())) < 0 })
+	sort.Slice(sorted, func(i, j int) bool {
+		return strings.Compare(string(sorted[i].Address.Bytes()), string(sorted[j].Address.Bytes())) < 0
+	})
 	for _, k := range []int{0, 3, 6} { // the first stored, one in the middle, one near the end
 		send("sentinel revoke", sorted[k], types.SentinelContract, types.ZeroTokenStandard, big.NewInt(0), definition.ABISentinel.PackMethodPanic(definition.RevokeSentinelMethodName))
 	}
@@ -237,7 +239,9 @@ func c18Paging(run *core.Run) {
 		embedded.NewSporkApi(z), embedded.NewSentinelApi(z), embedded.NewLiquidityApi(z), embedded.NewBridgeApi(z)
 	u1, u2, u3 := g.User1.Address, g.User2.Address, g.User3.Address
 	var qs []pagedQuery
-	add := func(name string, call func(page, size uint32) (interface{}, error)) { qs = append(qs, pagedQuery{name, call}) }
+	add := func(name string, call func(page, size uint32) (interface{}, error)) {
+		qs = append(qs, pagedQuery{name, call})
+	}
 	add("sentinel.getAllActive", func(a, b uint32) (interface{}, error) { return se.GetAllActive(a, b) })
 	add("pillar.getAll", func(a, b uint32) (interface{}, error) { return pa.GetAll(a, b) })
 	add("token.getAll", func(a, b uint32) (interface{}, error) { return ta.GetAll(a, b) })
